@@ -30,7 +30,8 @@ def jScreen (s : Screen) : Json :=
 /-- `c15.run {width, ansi, pre:[lines], ops:[…]}` -> per op the emitted bytes and every
 section (creation order) after the op; the screen after interpreting everything with the
 line-level terminal, starting below the `pre` lines; whether lexing the whole byte stream gives
-the command list back.
+the command list back; `wf` / `anchored`: the deciders of the hypotheses of the theorems
+(`Props.C15.wf_decides`) on this history and on the screen the `pre` lines leave behind.
 `c15.term {width, bytes}` -> the byte stream lexed and interpreted on an empty screen. -/
 def handle (m : String) (j : Json) : Option (R Json) :=
   match m with
@@ -53,6 +54,8 @@ def handle (m : String) (j : Json) : Option (R Json) :=
         ("screen", jScreen scr),
         ("lex", .bool (lex (emit cmds) == some cmds)),
         ("run_agrees", .bool (fin.2 == cmds && some fin.1 == (tr.getLast?.map (·.2)).orElse (fun _ => some []))),
+        ("wf", .bool (wfB w ops)),
+        ("anchored", .bool (anchoredB scr0)),
         ("stream", jStr (emit fin.2))]
   | "c15.term" => some do
       let w ← fNat j "width"
